@@ -16,6 +16,9 @@ def make_orbitals(ctx, n, regimes=("near", "leo"), real=True, max_bstar=None):
         tries += 1
         if tl:
             a, b = tl.pop(0)
+        elif out and tries % 5 == 0:
+            # a different element set with the catalogue number and epoch of the previous one (re-issued set)
+            a, b = tlegen.twin_of(ctx.rng, out[-1][0], out[-1][1], ctx.rng.choice(list(regimes)))
         else:
             _, a, b = tlegen.random_tle(ctx.rng, ctx.rng.choice(list(regimes)))
         try:
